@@ -8,11 +8,19 @@ squared distances ints in units of 1/4096.  See harness/cont_common.py for the p
    legacy f = float tuples, i = ints where integral, a = numpy arrays; exp a = arrays, l = lists)
   scenario legacy S T xmin xmax ymin ymax        (T = 0|1 torus)
     place a x y | move a x y | remove a | pos a | agents
+    setpos a x y   (agent.pos = (x, y) written by the user directly, not through the space)
     nbrs x y r incl | dist x1 y1 x2 y2 | heading x1 y1 x2 y2 | oob x y | adj x y
-  scenario exp S T cap lo hi lo hi [lo hi]
-    new a | set a x y [z] | get a | remove a | agents
-    radius x y [z] r | knn x y [z] k | nir a r | nn a k
-    dists x y [z] [: a b …] | diffs x y [z] [: a b …] | inb x y [z] | correct x y [z]
+  scenario exp S T cap lo hi [lo hi …]            (one lo hi pair per axis: any number of dimensions ≥ 1)
+    new a | set a x… | get a | remove a | agents            (agent-level: `err Attr` on a removed agent object)
+    iadd a dx…   (agent.position += d) | poke a j x   (p = agent.position; p[j] = x)
+    raw i x…     (space.agent_positions[i] = x: a user write through the public view)
+    compat a x…  (agent.pos = x: the solara-compatibility setter, which ignores the value)
+    hold k       (v_k = space.agent_positions: the user keeps a reference; answer `ok len=n`)
+    hread k      (the rows v_k shows now) | hraw k i x…  (v_k[i] = x)
+    radius x… r | knn x… k | nir a r | nn a k
+    dists x… [: a b …] | diffs x… [: a b …] | inb x… | correct x…
+  Points may have the wrong number of coordinates (numpy broadcasting / `ValueError`: `bcast`, `queryPoint` in the model);
+  not modelled and `bad-op`: empty vectors, wrong lengths on a 1-D space, wrong lengths for `compat` / `hraw`.
 -/
 open Mesa.Cont
 
@@ -30,6 +38,7 @@ def fmtErr : Err → String
   | .index => "err Index"
   | .value => "err Value"
   | .type => "err Type"
+  | .attr => "err Attr"
 
 def sortNat (l : List Nat) : List Nat := l.mergeSort (fun a b => decide (a ≤ b))
 
@@ -59,7 +68,7 @@ def fmtKnn (l : List (Int × Option Aid)) : String :=
 inductive St where
   | none
   | leg (s : LSpace)
-  | exp (s : ESpace) (nd : Nat)
+  | exp (h : HSpace) (nd : Nat) (slots : List (Nat × Held))
 
 def splitColon (ws : List String) : List String × Option (List String) :=
   match ws.span (· ≠ ":") with
@@ -94,6 +103,10 @@ def stepLeg (s : LSpace) (ws : List String) : LSpace × String :=
     | some a => (s, match s.pos a with | none => "ok pos=None" | some p => s!"ok pos={p.1},{p.2}")
     | none => (s, "bad-op")
   | ["agents"] => (s, "ok agents=" ++ commas ((sortNat s.agents).map toString))
+  | ["setpos", a, x, y] =>
+    match a.toNat?, x.toInt?, y.toInt? with
+    | some a, some x, some y => (lpoke s a (x, y), "ok")
+    | _, _, _ => (s, "bad-op")
   | ["nbrs", x, y, r, incl] =>
     match x.toInt?, y.toInt?, r.toInt?, incl.toNat? with
     | some x, some y, some r, some i =>
@@ -128,29 +141,56 @@ def fmtRes (r : Except Err (List (Aid × Int))) : String :=
   | .ok l => "ok res=" ++ fmtPairs l
   | .error e => fmtErr e
 
+/-- vectors the model does not speak about: empty ones, and wrong lengths on a 1-D space -/
+def badLen (nd : Nat) (p : List Int) : Bool := p.isEmpty || (nd == 1 && p.length != 1)
+
 def stepExp (s : ESpace) (nd : Nat) (ws : List String) : ESpace × String :=
   let bad := (s, "bad-op")
   match ws with
   | ["new", a] =>
     match a.toNat? with
-    | some a => if (s.a2i a).isSome then bad else (estep s (.new a), "ok")
+    | some a => if (s.a2i a).isSome || s.gone a then bad else (estep s (.new a), "ok")
     | none => bad
   | "set" :: a :: xs =>
     match a.toNat?, ints xs with
     | some a, some p =>
-      if p.length ≠ nd then bad else
-      match setPos s a p with
+      if badLen nd p then bad else
+      match agentSetV s a p with
       | .ok s' => (s', "ok")
       | .error e => (s, fmtErr e)
     | _, _ => bad
+  | "iadd" :: a :: xs =>
+    match a.toNat?, ints xs with
+    | some a, some v =>
+      if badLen nd v then bad else
+      match agentIaddV s a v with
+      | .ok s' => (s', "ok")
+      | .error e => (s, fmtErr e)
+    | _, _ => bad
+  | ["poke", a, j, x] =>
+    match a.toNat?, j.toNat?, x.toInt? with
+    | some a, some j, some _ => (s, match agentPoke s a j with | .ok _ => "ok" | .error e => fmtErr e)
+    | _, _, _ => bad
+  | "raw" :: i :: xs =>
+    match i.toNat?, ints xs with
+    | some i, some p =>
+      if badLen nd p then bad else
+      match rawWriteV s i p with
+      | .ok s' => (s', "ok")
+      | .error e => (s, fmtErr e)
+    | _, _ => bad
+  | "compat" :: a :: xs =>
+    match a.toNat?, ints xs with
+    | some _, some p => if p.length ≠ nd then bad else (s, "ok")
+    | _, _ => bad
   | ["get", a] =>
     match a.toNat? with
-    | some a => (s, match getPos s a with | .ok p => "ok pos=" ++ fmtPos p | .error e => fmtErr e)
+    | some a => (s, match agentGet s a with | .ok p => "ok pos=" ++ fmtPos p | .error e => fmtErr e)
     | none => bad
   | ["remove", a] =>
     match a.toNat? with
     | some a =>
-      match removeAgent s a with
+      match agentRemove s a with
       | .ok s' => (s', "ok")
       | .error e => (s, fmtErr e)
     | none => bad
@@ -158,25 +198,28 @@ def stepExp (s : ESpace) (nd : Nat) (ws : List String) : ESpace × String :=
   | "radius" :: xs =>
     match ints xs with
     | some v =>
-      if v.length ≠ nd + 1 then bad else
-      (s, "ok res=" ++ fmtPairs (agentsInRadius s (v.take nd) (v.getD nd 0)))
+      match v.getLast? with
+      | some r =>
+        if badLen nd v.dropLast then bad else (s, fmtRes (agentsInRadiusV s v.dropLast r))
+      | none => bad
     | none => bad
   | "knn" :: xs =>
-    match ints (xs.take nd), (xs.drop nd).mapM String.toNat? with
-    | some pt, some [k] =>
-      if pt.length ≠ nd then bad else
-      match kNearest argsortPart s pt k with
-      | .ok l => (s, "ok res=" ++ fmtKnn (knnCanon (calcD2 s pt) l).2)
-      | .error e => (s, fmtErr e)
+    match ints xs.dropLast, xs.getLast?.bind String.toNat? with
+    | some pt, some k =>
+      if badLen nd pt then bad else
+      match kNearestV argsortPart s pt k, queryPoint s true pt with
+      | .ok l, .ok q => (s, "ok res=" ++ fmtKnn (knnCanon (calcD2 s q) l).2)
+      | .error e, _ => (s, fmtErr e)
+      | _, .error e => (s, fmtErr e)
     | _, _ => bad
   | ["nir", a, r] =>
     match a.toNat?, r.toInt? with
-    | some a, some r => (s, fmtRes (neighborsInRadius s a r))
+    | some a, some r => (s, fmtRes (agentNir s a r))
     | _, _ => bad
   | ["nn", a, k] =>
     match a.toNat?, k.toNat? with
     | some a, some k =>
-      match getPos s a with
+      match agentGet s a with
       | .error e => (s, fmtErr e)
       | .ok p =>
         match kNearest argsortPart s p (k + 1) with
@@ -191,8 +234,8 @@ def stepExp (s : ESpace) (nd : Nat) (ws : List String) : ESpace × String :=
     | (xs, sub) =>
       match ints xs, (match sub with | none => some none | some l => (nats l).map some) with
       | some pt, some sub =>
-        if pt.length ≠ nd then bad else
-        match distancesOf s pt sub with
+        if badLen nd pt then bad else
+        match distancesOfV s pt sub with
         | .ok l => (s, "ok res=" ++ (match sub with
                                      | none => fmtPairs l
                                      | some _ => commas (l.map fun ad => s!"{ad.1}:{ad.2}")))
@@ -203,8 +246,8 @@ def stepExp (s : ESpace) (nd : Nat) (ws : List String) : ESpace × String :=
     | (xs, sub) =>
       match ints xs, (match sub with | none => some none | some l => (nats l).map some) with
       | some pt, some sub =>
-        if pt.length ≠ nd then bad else
-        match diffsOf s pt sub with
+        if badLen nd pt then bad else
+        match diffsOfV s pt sub with
         | .ok l => (s, "ok res=" ++ fmtVecs (match sub with
                                              | none => l.mergeSort (fun a b => decide (a.1 ≤ b.1))
                                              | some _ => l))
@@ -212,11 +255,15 @@ def stepExp (s : ESpace) (nd : Nat) (ws : List String) : ESpace × String :=
       | _, _ => bad
   | "inb" :: xs =>
     match ints xs with
-    | some p => if p.length ≠ nd then bad else (s, if inBounds s.cfg.dims p then "ok 1" else "ok 0")
+    | some p =>
+      if badLen nd p then bad else
+      (s, match inBoundsV s p with | .ok b => (if b then "ok 1" else "ok 0") | .error e => fmtErr e)
     | none => bad
   | "correct" :: xs =>
     match ints xs with
-    | some p => if p.length ≠ nd then bad else (s, "ok pos=" ++ fmtPos (torusCorrect s.cfg.dims p))
+    | some p =>
+      if badLen nd p then bad else
+      (s, match torusCorrectV s p with | .ok q => "ok pos=" ++ fmtPos q | .error e => fmtErr e)
     | none => bad
   | _ => bad
 
@@ -237,15 +284,33 @@ def stepLine (st : St) (ws : List String) : St × String :=
   | "scenario" :: "exp" :: style :: t :: cap :: rest =>
     match t.toNat?, cap.toNat?, (ints rest).bind pairs with
     | some t, some cap, some dims =>
-      if style ∈ ["a", "l"] ∧ t ≤ 1 ∧ (dims.length = 2 ∨ dims.length = 3) then
-        (.exp (einit { dims, torus := t == 1 } cap) dims.length, "ok")
+      if style ∈ ["a", "l"] ∧ t ≤ 1 ∧ 1 ≤ dims.length then
+        (.exp (hinit { dims, torus := t == 1 } cap) dims.length [], "ok")
       else (st, "bad-op")
     | _, _, _ => (st, "bad-op")
   | _ =>
     match st with
     | .none => (st, "bad-op")
     | .leg s => let (s', o) := stepLeg s ws; (.leg s', o)
-    | .exp s nd => let (s', o) := stepExp s nd ws; (.exp s' nd, o)
+    | .exp h nd slots =>
+      match ws with
+      | ["hold", k] =>
+        match k.toNat? with
+        | some k => let v := holdView h.sp; (.exp h nd ((k, v) :: slots.filter (·.1 ≠ k)), s!"ok len={v.len}")
+        | none => (st, "bad-op")
+      | ["hread", k] =>
+        match k.toNat?.bind (fun k => slots.lookup k) with
+        | some v => (st, "ok rows=" ++ ";".intercalate ((h.read v).map fmtPos))
+        | none => (st, "bad-op")
+      | "hraw" :: k :: i :: xs =>
+        match k.toNat?.bind (fun k => slots.lookup k), i.toNat?, ints xs with
+        | some v, some i, some p =>
+          if p.length ≠ nd then (st, "bad-op") else
+          match h.write v i p with
+          | .ok h' => (.exp h' nd slots, "ok")
+          | .error e => (st, fmtErr e)
+        | _, _, _ => (st, "bad-op")
+      | _ => let (s', o) := stepExp h.sp nd ws; (.exp (h.advance s') nd slots, o)
 
 partial def loop (h : IO.FS.Stream) (out : IO.FS.Stream) (st : St) : IO Unit := do
   let line ← h.getLine
